@@ -46,37 +46,37 @@ type propCfg struct {
 }
 
 var props = map[string]propCfg{
-	"C14": {Sim: "mw", Quick: tierCfg{Runs: 24000, Workers: 16, Budget: 60 * time.Second, Seeds: 1},
+	"C14": {Sim: "mw", Quick: tierCfg{Runs: 24000, Workers: 16, Budget: 180 * time.Second, Seeds: 1},
 		Thorough:  tierCfg{Runs: 400000, Workers: 16, Budget: 9 * time.Minute, Seeds: 5},
 		Rule:      "one run = one middleware instance (Validator strict/non-strict with default or custom ErrFunc/LogFunc, or ValidationHandler.ServeHTTP/Middleware) over a seeded document-family member and a history of 1-4 requests (routable or not, valid or invalid by construction, body delivered by a chunk plan with optional mid-body fault) each answered by a scripted handler (call-sequence shape drawn from: silent, status-only, write-only, pieces, multi-status, write-then-status, informational-first, flush variants) observed by a net/http-faithful client writer with optional write fault. A run is non-trivial when it has at least one request; distinct = distinct (mode, ErrFunc, document member, router, history length, handler-shape sequence, auth behaviour, multi-error) tuples.",
 		DesignRef: "§3 SIM-MW",
 		Reach:     []string{"expect-404", "expect-400", "expect-pass", "strict-500", "strict-pass", "pass-through", "fault-seen-by-validator", "shape-silent", "shape-status-only", "shape-write-only", "shape-write-then-status", "shape-multi-status", "shape-status-pieces", "shape-informational-first", "shape-flush-first", "shape-status-write-flush", "handler_abort", "client_write_err", "reqbody_eio", "reqbody_reset", "reqbody_unexpected_eof"}},
-	"C15": {Sim: "conc", Race: true, Quick: tierCfg{Runs: 4800, Workers: 16, Budget: 100 * time.Second, Seeds: 1},
+	"C15": {Sim: "conc", Race: true, Quick: tierCfg{Runs: 4800, Workers: 16, Budget: 300 * time.Second, Seeds: 1},
 		Thorough:  tierCfg{Runs: 120000, Workers: 16, Budget: 18 * time.Minute, Seeds: 5},
 		Rule:      "one run = 2-6 caller goroutines with 1-4 library calls each (FindRoute on both routers, ValidateRequest over JSON/form/multipart/text bodies with defaults on/off, multi-error, custom regex compilers, reading auth callbacks; ValidateResponse; Schema.VisitJSON/IsMatching in every mode; strict and non-strict middleware ServeHTTP; openapi3gen.NewSchemaRefForValue on compiled-in and per-run reflect.StructOf types) sharing one loaded+validated document (patterns carry the run marker: cold caches), both routers and two middleware instances, executed in a -race build under the zzsimrt scheduler with a seeded policy (serial, uniform-random switch probability 1/3..1/1000, biased towards sites touching shared state, PCT depth 1-3, round-robin quantum 1..1000) and sorted or seeded-permuted map iteration. Oracles: A no race report with a kin-openapi frame in both stacks / no runtime fatal; B every call's outcome equals the same call alone on a fresh document; C no deadlock on library locks, all calls return within the step cap; D the shared document serialises identically before and after. Non-trivial = at least one context switch happened inside library code; distinct = distinct (caller op-kind multiset, hash of the switch sequence projected to (from-site, to-site)) pairs; distinct_cover_items = distinct (site where one caller was stopped, site where the next one resumed) pairs over all context switches inside library code.",
 		DesignRef: "§3 SIM-CONC",
 		Reach:     []string{"switch-inside-library", "calls-overlapped", "lock-contention", "map-order-permuted", "patterns-cold-at-start", "first-use-in-process", "callback-crash-inside-call", "policy-random", "policy-biased", "policy-pct", "policy-rr", "policy-serial"}},
-	"C11": {Sim: "loader", Quick: tierCfg{Runs: 40000, Workers: 16, Budget: 60 * time.Second, Seeds: 1},
+	"C11": {Sim: "loader", Quick: tierCfg{Runs: 40000, Workers: 16, Budget: 180 * time.Second, Seeds: 1},
 		Thorough:  tierCfg{Runs: 700000, Workers: 16, Budget: 9 * time.Minute, Seeds: 5},
 		Rule:      "one run = one or two loads (fresh or reused Loader) of a generated multi-file layout in the simulated storage: root at one of {in-memory data, io.Reader, data+absolute path, data+http URL, relative file, absolute file, file:// URL, http, https}, 0-5 further documents (whole OpenAPI documents, bare single elements of each of the ten kinds, free-form JSON with fragments) in nested directories and on a second host, references of all ten resolver kinds planted at visited and unvisited positions in whole-file, fragment and missing-fragment form with chains/diamonds/cycles, canary references (parent escapes, absolute paths, http(s) and scheme-relative URLs), both switch settings, custom ReadFromURIFunc or the default reader (simulated os.ReadFile + RoundTripper), read faults. Invariant at every read event: switch off => the root location only (none at all for in-memory roots); switch on => location in the justified set J, and (custom reader) some already-delivered document refers to it. Non-trivial = the layout holds at least one reference; distinct = distinct (root form, reader, switch, reuse, file kinds, number of reads, faults) tuples.",
 		DesignRef: "§3 SIM-LOADER",
 		Reach:     []string{"read-root", "read-nonroot", "reached-whole", "reached-free", "reached-single:schema", "reached-single:parameter", "reached-single:header", "reached-single:requestBody", "reached-single:response", "reached-single:example", "reached-single:callback", "reached-single:link", "reached-single:pathItem", "reached-single:securityScheme", "load-ok", "load-err", "unreadable-target", "enoent", "eio", "torn", "http5xx", "http_reset", "changed"}},
-	"C02": {Sim: "loader", Quick: tierCfg{Runs: 40000, Workers: 16, Budget: 60 * time.Second, Seeds: 1},
+	"C02": {Sim: "loader", Quick: tierCfg{Runs: 40000, Workers: 16, Budget: 180 * time.Second, Seeds: 1},
 		Thorough:  tierCfg{Runs: 700000, Workers: 16, Budget: 9 * time.Minute, Seeds: 5},
 		Rule:      "same runs as C11. Clause (i): a location whose read failed (missing, enoent, eio, http 5xx, connection reset) and never succeeded in that load => the load returns an error. Clause (ii): a fragment reference planted in the root at a resolved position whose existing target lacks the fragment => the load returns an error. Clause (iii): every load terminates within a read budget (64+16*(1+references)*(1+files) reads) and an instrumentation-step budget, including on cyclic multi-file layouts and under faults. The main clause (resolved object == designated object) is a pure function of the file tree and is NOT decided.",
 		DesignRef: "§3 SIM-LOADER, §4 C02",
 		Reach:     []string{"unreadable-target", "load-ok", "load-err", "enoent", "eio", "torn", "http5xx", "http_reset", "changed"}},
-	"C13": {Sim: "stream", Quick: tierCfg{Runs: 48000, Workers: 16, Budget: 60 * time.Second, Seeds: 1},
+	"C13": {Sim: "stream", Quick: tierCfg{Runs: 48000, Workers: 16, Budget: 180 * time.Second, Seeds: 1},
 		Thorough:  tierCfg{Runs: 800000, Workers: 16, Budget: 9 * time.Minute, Seeds: 5},
 		Rule:      "one run = one request handed through the parties client stream -> authentication callbacks -> validation (1 or 2 validations with seeded options) -> next handler, over a seeded document (security requirement shapes at operation/document level; defaulted query/header/cookie parameters incl. arrays with explode true/false/unset; JSON body with defaults at top level, nested, in array items, inside allOf/oneOf/anyOf, object- and array-valued; form, multipart, text, undeclared bodies) with a seeded chunk plan, GetBody nil/ok/err, ContentLength exact/-1, Body nil/NoBody/empty, optional mid-body fault followed by a fault-free request on the same document. Oracles R1 (forwarded body readable in full; ContentLength/GetBody consistent), R2 (defaults exactly once against the ApplyDefaults reference model and the declared serialisation; byte identity when defaults are skipped; forwarded request validates again unchanged). Distinct = distinct (security shapes, parameter set, body kind/mode, GetBody, ContentLength, chunk-plan length, fault, options, callback behaviours) tuples.",
 		DesignRef: "§3 SIM-STREAM",
 		Reach:     []string{"body-parties-1", "body-parties-2", "auth-read-all", "auth-read-part", "body-defaults-applied", "default-query", "default-header", "default-cookie", "skip-identity", "idempotence-checked", "second-validation", "req-in-flight", "getbody-checked", "fault-run", "reqbody_eio", "reqbody_reset", "reqbody_unexpected_eof"}},
-	"C07": {Sim: "stream", Quick: tierCfg{Runs: 48000, Workers: 16, Budget: 60 * time.Second, Seeds: 1},
+	"C07": {Sim: "stream", Quick: tierCfg{Runs: 48000, Workers: 16, Budget: 180 * time.Second, Seeds: 1},
 		Thorough:  tierCfg{Runs: 800000, Workers: 16, Budget: 9 * time.Minute, Seeds: 5},
 		Rule:      "same runs as C13 biased to documents with security requirements; oracle R3: verdict and failing-part set of validation #1 equal those of a neutral run (same bytes as one in-memory chunk, non-reading callback with the same outcomes) whatever the chunk plan, GetBody/ContentLength variant and the callbacks' reading behaviour (none / part / all / close / body-dependent signature check); callbacks invoked with the same (scheme, scopes) sequence and always finding the full body; a stream error observed by the library is never followed by acceptance. Clause-scoped: the security/parameter truth table itself is not decided.",
 		DesignRef: "§3 SIM-STREAM, §4 C07",
 		Reach:     []string{"security-model-true", "security-model-false", "auth-read-all", "auth-read-part", "body-parties-2", "fault-run", "reqbody_eio"}},
-	"C08": {Sim: "stream", Quick: tierCfg{Runs: 48000, Workers: 16, Budget: 60 * time.Second, Seeds: 1},
+	"C08": {Sim: "stream", Quick: tierCfg{Runs: 48000, Workers: 16, Budget: 180 * time.Second, Seeds: 1},
 		Thorough:  tierCfg{Runs: 800000, Workers: 16, Budget: 9 * time.Minute, Seeds: 5},
 		Rule:      "one run = ValidateResponse over a response-body stream (seeded chunk plan, optional mid-body fault followed by a fault-free response) for a seeded response map (exact / class / default entries, with or without content, schema, required header), status (incl. 204/301/304/307/308), method (POST/HEAD), headers and body, options (multi-error, exclude body, strict status). Oracles: afterwards input.Body is non-nil and yields the original bytes to EOF on every return path; the verdict equals that over the same bytes in memory; a stream error observed by the library is never followed by acceptance. Clause-scoped: selection of the entry and schema checks are not decided. Distinct = distinct (entry count, status, method, chunk-plan length, fault, options) tuples.",
 		DesignRef: "§3 SIM-STREAM, §4 C08",
